@@ -30,6 +30,7 @@ partial def loop (h : IO.FS.Stream) : IO Unit := do
     let p := ((st.prev.find? (·.1 = src.toNat!)).map (·.2)).getD 0
     tsRef.set { st with prev := (dst.toNat!, p) :: st.prev.filter (·.1 ≠ dst.toNat!) }
     IO.println "ok"
+  | "tmerge" :: _ => IO.println "ok"      -- TicksSinceStart embeds core.NoopMerger: merging branches changes no tick state
   | ["tcons", b, c, np, t, idx] =>
     let st ← tsRef.get
     let t := t.toInt!
